@@ -290,7 +290,7 @@ impl RangeRecord {
 
 impl DeltaFormat {
     pub(crate) fn value_count(self, start_size: u16, end_size: u16) -> usize {
-        let range_len = end_size.saturating_add(1).saturating_sub(start_size) as usize;
+        let range_len = (end_size as usize + 1).saturating_sub(start_size as usize);
         let val_per_word = match self {
             DeltaFormat::Local2BitDeltas => 8,
             DeltaFormat::Local4BitDeltas => 4,
@@ -422,7 +422,7 @@ impl<'a> Device<'a> {
     /// Iterate over the decoded values for this device
     pub fn iter(&self) -> impl Iterator<Item = i8> + 'a {
         let format = self.delta_format();
-        let mut n = (self.end_size() - self.start_size()) as usize + 1;
+        let mut n = self.end_size().saturating_sub(self.start_size()) as usize + 1;
         let deltas_per_word = match format {
             DeltaFormat::Local2BitDeltas => 8,
             DeltaFormat::Local4BitDeltas => 4,
@@ -450,13 +450,10 @@ fn iter_packed_values(raw: u16, format: DeltaFormat, n: usize) -> impl Iterator<
     let max_per_word = 16 / bits;
     #[allow(clippy::needless_range_loop)] // enumerate() feels weird here
     for i in 0..n.min(max_per_word) {
-        let mask = mask << ((16 - bits) - i * bits);
-        let val = (raw & mask) >> ((16 - bits) - i * bits);
-        let sign = val & sign_mask != 0;
-
-        let val = if sign {
-            // it is 2023 and I am googling to remember how twos compliment works
-            -((((!val) & mask) + 1) as i8)
+        let shift = (16 - bits) - i * bits;
+        let val = (raw >> shift) & mask;
+        let val = if val & sign_mask != 0 {
+            (val as i32 - (1i32 << bits)) as i8
         } else {
             val as i8
         };
@@ -596,5 +593,27 @@ mod tests {
             device.iter().collect::<Vec<_>>(),
             &[1i8, -12, 30, -11, 101, 8, 42]
         );
+    }
+
+    /// Size ranges and delta values at the limits used to overflow while
+    /// decoding: start_size > end_size, a delta of -128, negative deltas in
+    /// the leading slots of a word, end_size == 0xFFFF.
+    #[test]
+    fn device_hostile_sizes_and_deltas() {
+        let device = Device::read([0u8, 1, 0, 0, 0, 1][..].into()).unwrap();
+        assert_eq!(device.iter().count(), 0);
+        let device = Device::read([0u8, 0, 0, 1, 0, 3, 0, 0x80][..].into()).unwrap();
+        assert_eq!(device.iter().collect::<Vec<_>>(), &[0, -128]);
+        assert_eq!(
+            iter_packed_values(0x8800, DeltaFormat::Local2BitDeltas, 3).collect::<Vec<_>>(),
+            &[-2, 0, -2]
+        );
+        assert_eq!(
+            iter_packed_values(0xf401, DeltaFormat::Local8BitDeltas, 2).collect::<Vec<_>>(),
+            &[-12, 1]
+        );
+        let device =
+            Device::read([0xffu8, 0xff, 0xff, 0xff, 0, 1, 0x40, 0][..].into()).unwrap();
+        assert_eq!(device.iter().collect::<Vec<_>>(), &[1]);
     }
 }
